@@ -24,6 +24,7 @@ run selftest/mustpass/04_reordered_independent_resets_continueGame.diff pass C07
 run selftest/mustpass/05_renamed_locals_and_temp_manager_PlayerBet.diff pass C17
 run selftest/mustpass/06_renamed_local_updatePlayerPositions.diff pass C06
 run selftest/mustpass/07_reordered_independent_inits_CreateTable.diff pass C12 C17
+run selftest/mustpass/08_renamed_local_and_logging_gate_closure_player_runner.diff pass C08 C19
 for d in seeded/C*/; do
   id=$(basename $d)
   props=$(python3 -c "import json,sys; m=json.load(open('$d/meta.json')); print(' '.join(m.get('run_checks',[m['property']])))")
